@@ -57,7 +57,7 @@ struct Hist {
 	force_direct: bool,
 	/// (amount, amount_includes_fee, ttl_blocks): a send with exactly these, from the active account,
 	/// smallest outputs first, one change output, not late-locked
-	force_init: Option<(u64, bool, Option<u64>)>,
+	force_init: Option<(u64, bool, Option<u64>, bool)>,
 }
 
 fn acct_name(a: u64) -> Option<&'static str> {
@@ -424,7 +424,7 @@ impl Hist {
 			..Default::default()
 		};
 		let (args, late, amount) = match fi {
-			Some((amt, aif, ttl)) => (
+			Some((amt, aif, ttl, use_all)) => (
 				InitTxArgs {
 					src_acct_name: None,
 					amount: amt,
@@ -432,7 +432,7 @@ impl Hist {
 					minimum_confirmations: 1,
 					max_outputs: 500,
 					num_change_outputs: 1,
-					selection_strategy_is_use_all: false,
+					selection_strategy_is_use_all: use_all,
 					ttl_blocks: ttl,
 					late_lock: Some(false),
 					..Default::default()
@@ -1107,7 +1107,7 @@ impl Hist {
 		};
 		let ttl = self.p.range(2, 4);
 		let before = self.flights.len();
-		self.force_init = Some((smallest, true, Some(ttl)));
+		self.force_init = Some((smallest, true, Some(ttl), false));
 		self.init_send(i);
 		if self.flights.len() == before {
 			return;
@@ -1135,7 +1135,7 @@ impl Hist {
 		// the second send of the account, with a cutoff of its own, reserved and left pending
 		let ttl2 = self.p.range(1, 4);
 		let before2 = self.flights.len();
-		self.force_init = Some((self.p.range(1, 2_000_000_000), false, Some(ttl2)));
+		self.force_init = Some((self.p.range(1, 2_000_000_000), false, Some(ttl2), false));
 		self.init_send(i);
 		if self.flights.len() > before2 {
 			let g = self.flights.len() - 1;
@@ -1233,9 +1233,26 @@ impl Hist {
 			self.mine(miner, false);
 			self.refresh(r_i, true);
 		}
+		// one time in three the recipient starts a send of its own over everything it has, the payment
+		// just confirmed included — and reserves only after the reorganisation
+		let mut early: Option<usize> = None;
+		if self.p.chance(1, 3) {
+			let d = self.active(r_i);
+			let _ = d;
+			self.refresh(r_i, true);
+			let before2 = self.flights.len();
+			self.force_init = Some((self.p.range(1, 1_000_000_000), false, None, true));
+			self.init_send(r_i);
+			if self.flights.len() > before2 {
+				early = Some(self.flights.len() - 1);
+			}
+		}
 		self.fork(miner);
 		let all = self.p.chance(2, 3);
 		self.refresh(r_i, all);
+		if let Some(g) = early {
+			self.lock(g);
+		}
 		if self.p.coin() {
 			self.refresh(sender, true);
 		}
